@@ -432,6 +432,8 @@ type AListInt = List[int]
 type AOpt = AScalar | None
 type AGen[T] = List[T] | None
 type AWide = int | str | bytes | float | None
+type ARec = List[ARec] | int
+type ARecD = Dict[str, ARecD] | None
 
 
 def special_hints():
@@ -502,6 +504,8 @@ def special_hints():
         # one type variable bound differently at two levels of a hint tree
         ('UTagged[int]', uc.UTagged[int]), ('List[UTagged[int]]', List[uc.UTagged[int]]), ('Optional[UTagged[bytes]]', Optional[uc.UTagged[bytes]]),
         ('UGenDict[str,UGenDict[int,bytes]]', uc.UGenDict[str, uc.UGenDict[int, bytes]]),
+        # recursive PEP 695 aliases
+        ('ARec', ARec), ('Optional[ARec]', Optional[ARec]), ('ARecD', ARecD), ('List[ARec]', List[ARec]), ('Tuple[ARec,str]', Tuple[ARec, str]),
         ('UIntList', uc.UIntList), ('List[UIntList]', List[uc.UIntList]), ('Optional[UIntList]', Optional[uc.UIntList]),
         ('Dict[str,UIntList]', Dict[str, uc.UIntList]), ('Union[UIntList,str]', Union[uc.UIntList, str]),
         ('NTNT', NTNT), ('List[NTNT]', List[NTNT]), ('Union[NTNT,str]', Union[NTNT, str]),
